@@ -261,4 +261,24 @@ theorem chunk_len {ρ' : Type} (k : Nat) (it : BufferedIter) (h : it.current_idx
     (ChunkIt.len k it : PF ρ' _) = .ret (.norm (it.initial_len - it.current_idx)) := by
   simp [ChunkIt.len, m_fn, bind, PF.bind, Prog.bind, op_sub, h, pure]
 
+theorem collect_nones {ρ : Type} (lo : Nat) : ∀ (k i : Nat) (acc : List (Option Nat)),
+    collectAux (ρ := ρ) (fun i => (do
+      match ← (pure (some (lo + i)) : PF ρ (Option Nat)) with
+      | none => pure none
+      | some a => do let b ← (pure none : PF ρ (Option Nat)); pure (some b))) k i acc = pure (acc ++ List.replicate k none)
+  | 0, i, acc => by simp [collectAux]
+  | k + 1, i, acc => by
+    have ih := collect_nones (ρ := ρ) lo k (i + 1) (acc ++ [none])
+    simp only [collectAux, bind, PF.bind, Prog.bind, pure] at ih ⊢
+    rw [ih]
+    simp [List.replicate_succ, List.append_assoc]
+
+/-- **`BufferIter::new(chunk_size)` as in the source**: the reusable buffer has exactly `chunk_size` empty slots (the documented
+allocation of a buffered iterator over a wrapped iterator), no atomic access, nothing else -/
+theorem buf_new {ρ' : Type} (f n : Nat) : (BufIter.new f n : PF ρ' _) = .ret (.norm ⟨List.replicate n none⟩) := by
+  have h := collect_nones (ρ := BufIterSelf) 0 n 0 []
+  simp only [BufIter.new, m_fn, bind, PF.bind, Prog.bind, pure, m_range, m_map, MMap.m_map, m_collect, Nat.sub_zero] at h ⊢
+  rw [h]
+  simp [Prog.bind]
+
 end Orx.GenThms.Proto
